@@ -2,7 +2,7 @@
    (compileOptimized) and the matchers (matchers.go) REGENERATED from /repo on this run. *)
 From Coq Require Import List ZArith Lia Bool Arith.
 From RG.Base Require Import Outcome GoSlice.
-From RG.Regex Require Import Utf8 Regex FastPath GoOps Capture.
+From RG.Regex Require Import Utf8 Regex FastPath GoOps Capture Matcher.
 From RGW Require Import Gen_Textmatch Inst_Textmatch.
 Import ListNotations.
 Local Open Scope Z_scope.
@@ -27,8 +27,24 @@ Theorem C11_fast_path_equiv :
     (gen_match_bytes pred_fn mt b = true <-> search fold_rel re (decode b)) /\
     (gen_match_string pred_fn mt b = true <-> search fold_rel re (decode b)).
 Proof. exact (gen_fast_path_equiv fold_rel pred_fn parses_to parse_upper parse_lower pred_error). Qed.
+
+(* ... equivalently: they compute the same boolean as the reference matcher of the relation (executable on both sides) *)
+Theorem C11_fast_path_is_reference_matcher :
+  forall s re mt, parses_to s re -> gen_compileOptimized s re = Ok (Some mt) ->
+  forall b, bytes_ok b ->
+    gen_match_bytes pred_fn mt b = searchb fold_rel re (decode b) /\
+    gen_match_string pred_fn mt b = searchb fold_rel re (decode b).
+Proof. exact (gen_fast_path_is_searchb fold_rel pred_fn parses_to parse_upper parse_lower pred_error). Qed.
 End C11.
 Print Assumptions C11_fast_path_equiv.
+Print Assumptions C11_fast_path_is_reference_matcher.
+
+(* the matching relation in which the theorems are stated is decided by an executable matcher; that matcher is compared
+   with regexp.MustCompile on every generated pattern on every run, so the relation is validated, not merely trusted *)
+Theorem C11_relation_is_executable :
+  forall fold_rel re l, searchb fold_rel re l = true <-> search fold_rel re l.
+Proof. exact searchb_correct. Qed.
+Print Assumptions C11_relation_is_executable.
 
 (* the selection is total (re.Sub[i] is never out of range) and equals the specified selection *)
 Theorem C11_selection_is_spec : forall s re, gen_compileOptimized s re = Ok (spec_select s re).
